@@ -40,7 +40,9 @@ func sourceColumns(sources influxql.Sources, sc gen.Schema) (fields map[string]s
 		case *influxql.Measurement:
 			f, t := simschema.Columns(sc, s)
 			for k, typ := range f {
-				if cur, ok := fields[k]; !ok || simschema.Rank(typ) > simschema.Rank(cur) {
+				if cur, ok := fields[k]; ok && cur == "?" {
+					continue // undecided stays undecided
+				} else if !ok || simschema.Rank(typ) > simschema.Rank(cur) {
 					fields[k] = typ
 				}
 			}
@@ -48,6 +50,11 @@ func sourceColumns(sources influxql.Sources, sc gen.Schema) (fields map[string]s
 				tags[tg] = true
 			}
 		case *influxql.SubQuery:
+			for _, f := range s.Statement.Fields {
+				if c, ok := f.Expr.(*influxql.Call); ok && (c.Name == "top" || c.Name == "bottom") && len(c.Args) > 2 {
+					return nil, nil, "top()/bottom() tag arguments as columns of a subquery"
+				}
+			}
 			sub := modelRewrite(s.Statement, sc)
 			if sub.Err {
 				return nil, nil, "subquery expansion is an error"
@@ -87,13 +94,10 @@ func exprType(e influxql.Expr, fields map[string]string, tags map[string]bool) s
 		if x.Type != influxql.Unknown && x.Type != influxql.AnyField {
 			return typeStr(x.Type)
 		}
-		if t, ok := fields[x.Val]; ok {
+		if t, ok := fields[x.Val]; ok && !(t == "unknown" && tags[x.Val]) {
 			return t
 		}
 		if tags[x.Val] {
-			if x.Type == influxql.AnyField {
-				return "field"
-			}
 			return "tag"
 		}
 		return "unknown"
@@ -165,8 +169,10 @@ func annotate(e influxql.Expr, fields map[string]string, tags map[string]bool) (
 		switch t {
 		case "?":
 			ok = false
-		case "field":
-			// ::field on a tag stays as written
+		case "tag":
+			if ref.Type != influxql.AnyField { // ::field on a tag stays as written
+				ref.Type = influxql.Tag
+			}
 		case "unknown":
 			ref.Type = influxql.Unknown
 		default:
@@ -266,6 +272,10 @@ func modelRewrite(stmt *influxql.SelectStatement, sc gen.Schema) *mResult {
 		switch x := f.Expr.(type) {
 		case *influxql.Wildcard:
 			for _, c := range cols {
+				if x.Type != 0 && c.Type == "?" {
+					res.Unsettled = "typed wildcard over a column whose type the model does not decide"
+					return res
+				}
 				if x.Type == influxql.FIELD && c.Type == "tag" {
 					continue
 				}
@@ -274,7 +284,7 @@ func modelRewrite(stmt *influxql.SelectStatement, sc gen.Schema) *mResult {
 				}
 				ref := &influxql.VarRef{Val: c.Name, Type: influxql.DataTypeFromString(c.Type)}
 				res.Fields = append(res.Fields, expandString(ref, c))
-				res.cols = append(res.cols, c)
+				res.cols = append(res.cols, colOf(c, fields, tags))
 			}
 			continue
 		case *influxql.RegexLiteral:
@@ -282,7 +292,7 @@ func modelRewrite(stmt *influxql.SelectStatement, sc gen.Schema) *mResult {
 				if x.Val.MatchString(c.Name) {
 					ref := &influxql.VarRef{Val: c.Name, Type: influxql.DataTypeFromString(c.Type)}
 					res.Fields = append(res.Fields, expandString(ref, c))
-					res.cols = append(res.cols, c)
+					res.cols = append(res.cols, colOf(c, fields, tags))
 				}
 			}
 			continue
@@ -402,6 +412,15 @@ func modelRewrite(stmt *influxql.SelectStatement, sc gen.Schema) *mResult {
 	return res
 }
 
+// colOf is the output column an expanded reference contributes when this statement is itself a
+// subquery: an expanded column of unknown type is typed like any untyped reference to that name.
+func colOf(c mCol, fields map[string]string, tags map[string]bool) mCol {
+	if c.Type == "unknown" {
+		return mCol{c.Name, exprType(&influxql.VarRef{Val: c.Name}, fields, tags)}
+	}
+	return c
+}
+
 func expandString(ref *influxql.VarRef, c mCol) string {
 	if c.Type == "?" {
 		return influxql.QuoteIdent(c.Name) + "::?"
@@ -413,12 +432,19 @@ func expandString(ref *influxql.VarRef, c mCol) string {
 // the order of adjacent same-name columns (field vs tag of one name).
 func canonPairs(xs []string) []string {
 	out := append([]string(nil), xs...)
-	for i := 0; i+1 < len(out); i++ {
-		a, b := out[i], out[i+1]
-		ia, ib := strings.LastIndex(a, "::"), strings.LastIndex(b, "::")
-		if ia > 0 && ib > 0 && a[:ia] == b[:ib] && a[ia:] > b[ib:] {
-			out[i], out[i+1] = b, a
+	name := func(s string) string {
+		if i := strings.LastIndex(s, "::"); i > 0 {
+			return s[:i]
 		}
+		return s
+	}
+	for i := 0; i < len(out); {
+		j := i + 1
+		for j < len(out) && name(out[j]) == name(out[i]) {
+			j++
+		}
+		sort.Strings(out[i:j])
+		i = j
 	}
 	return out
 }
